@@ -138,10 +138,10 @@ def pick_pc(rng, ords):
     return p, c
 
 
-ATT = [0.0, 0.5, 1.0, 16.0, 2.75, 50.0, 300.0, 1000.0, 1e4, 1e6, 87.5, 1e-3]
+ATT = [0.0, 0.5, 1.0, 16.0, 2.75, 50.0, 300.0, 1000.0, 1e4, 1e6, 87.5, 1e-3, 15.707963267948966, 16.1]
 ORD = [1, 2, 3, 18, 1, 2, 0, 32, 50]
 CUT = [0.0, 0.0, 0.25, 0.5, 0.4, 0.9, 0.875, 0.99, 0.999]
-SCALE = [0.0, 0.01, 0.1, 1.5, 0.003, 100.0, 1e4, 1e-6]
+SCALE = [0.0, 0.01, 0.1, 1.5, 0.003, 100.0, 1e4, 1e-6, 0.0123, 0.7071067811865476]
 HORD = [1, 2, 3, 4]
 # dt/tau over many decades, dense around the float32-ish thresholds 87/88, 100, 700/16 and the float64 underflow ~708/745
 RATIO = [1e-3, 0.01, 0.1, 0.5, 1.0, 4.0, 16.0, 43.75, 60.0, 86.0, 87.0, 88.0, 96.0, 100.0, 144.0, 200.0, 500.0, 700.0, 750.0, 1000.0, 3000.0]
@@ -247,6 +247,39 @@ def generate(ctx):
             g = {'M': int(rng.integers(1, 4)), 'L': L_, 'impl': pick(rng, IMPLS[:4]), 'radius': r_}
             yield 'hdfilter', {'grid': g, 'scale': hd_scale(L_, o_, r_, pick(rng, [0.25, 1.0, 5.0, 40.0])), 'order': o_, 'K': 1}
             yield 'hdstep', {'grid': g, 'dt': pick(rng, [0.125, 1.0, 8.0]), 'tau': pick(rng, [0.25, 1.0]), 'order': o_, 'dseed': int(rng.integers(0, 2 ** 31))}
+    # A: cutoff within 1e-9 .. 2^-40 (relative) of a wavenumber ratio k = l / max l, but not equal (strict k > c)
+    for j, c_ in enumerate([0.5 * (1 + 2.0 ** -40), 0.5 * (1 - 2.0 ** -40), 0.5 * (1 + 1e-9), 0.75 * (1 - 1e-9), 0.25 * (1 + 1e-12)]):
+        yield 'expfilter', {'grid': g1, 'a': 16.0, 'p': 0, 'c': c_, 'K': 1}
+        yield 'expfilter', {'grid': g1, 'a': 1e6, 'p': 1, 'c': c_, 'K': 1}
+    # B: dyadic scalings 2^-30 .. 2^30 of radius, dt and tau together, dt/tau, attenuation
+    for j, e_ in enumerate([-30, -12, 12, 30] if quick else [-30, -20, -12, -5, 5, 12, 20, 30]):
+        s2 = 2.0 ** e_
+        g = {'M': 2, 'L': [5, 9, 6, 12][j % 4], 'impl': ['real', 'fast4', 'fast8', 'fast'][j % 4], 'radius': s2}
+        yield 'hdfilter', {'grid': g, 'scale': hd_scale(g['L'], 1 + j % 3, s2, 3.0), 'order': 1 + j % 3, 'K': 1}
+        yield 'hdstep', {'grid': g, 'dt': 3.0 * s2, 'tau': s2, 'order': 1 + j % 3, 'dseed': 150 + j}
+        yield 'expstep', {'grid': g, 'dt': 5.0 * s2, 'tau': s2, 'p': 2, 'c': 0.25, 'leapfrog': j % 2, 'dseed': 160 + j}
+        yield 'expstep', {'grid': g, 'dt': s2, 'tau': 1.0, 'p': 1, 'c': 0.0, 'leapfrog': (j + 1) % 2, 'dseed': 170 + j}
+        yield 'hdstep', {'grid': g, 'dt': 1.0, 'tau': s2, 'order': 1, 'dseed': 180 + j}
+        yield 'expfilter', {'grid': g, 'a': s2, 'p': 3, 'c': 0.5, 'K': 1}
+    # C: sizes beyond 128 / 256 / 512 (1024 in thorough) along one axis with skinny layouts; 128 < M <= 256 is the
+    # default range of the stacked Fourier path of FastSphericalHarmonics
+    bigs = [{'M': 1, 'L': 600, 'impl': 'real', 'radius': 1.0}, {'M': 130, 'L': 131, 'impl': 'fast', 'radius': 2.0}]
+    if not quick:
+        bigs += [{'M': 2, 'L': 600, 'impl': 'fast4', 'radius': 1.0}, {'M': 200, 'L': 140, 'impl': 'fast8', 'radius': 1.0},
+                 {'M': 300, 'L': 301, 'impl': 'fast', 'radius': 1.0}, {'M': 2, 'L': 1030, 'impl': 'real', 'radius': 0.5},
+                 {'M': 256, 'L': 20, 'impl': 'fast_unstacked', 'radius': 1.0}]
+    for j, g in enumerate(bigs):
+        yield 'expfilter', {'grid': g, 'a': 16.0, 'p': 18, 'c': 0.0, 'K': 1}
+        yield 'hdfilter', {'grid': g, 'scale': hd_scale(g['L'], 2, g['radius'], 5.0), 'order': 2, 'K': 1}
+        yield 'hdstep', {'grid': g, 'dt': 0.5, 'tau': 0.25, 'order': 1 + j % 2, 'dseed': 190 + j}
+        yield 'expstep', {'grid': g, 'dt': 4.0, 'tau': 0.25, 'p': 18, 'c': 0.0, 'leapfrog': j % 2, 'dseed': 200 + j}
+        if g['M'] <= 2:
+            yield 'tree', {'grid': g, 'kind': 'exp', 'par': [16.0, 18, 0.0], 'K': 1, 'dseed': 210 + j}
+    # D: transformation contexts and filter chains
+    tg = [g1, g0] if quick else [g1, g0, g2, {'M': 2, 'L': 5, 'impl': 'fast_mesh', 'radius': 2.0}, {'M': 3, 'L': 7, 'impl': 'fast8', 'radius': 6.371}]
+    for j, g in enumerate(tg):
+        yield 'transforms', {'grid': g, 'dseed': 220 + j}
+        yield 'chain', {'grid': g, 'r': [0.05, 0.25][j % 2], 'dt': [0.5, 24.0][j % 2], 'tau': 0.25, 'p': 1 + j % 3, 'c': [0.0, 0.25][j % 2], 'dseed': 230 + j}
     n = 6 if quick else 60
     for _ in range(n):
         g = rand_grid(rng, ctx.tier)
@@ -631,6 +664,17 @@ def _form_leaves(ctx, name, f, L, Mm, K, sc, lw, rng, clause):
         else:
             ctx.oracle(clause, np.shape(y) == np.shape(x) and np.asarray(y).dtype == np.asarray(x).dtype and
                        np.array_equal(np.asarray(y), before[k]), {'leaf': k})
+    # deep nesting, many leaves: same leaves inside dict/list/tuple/None containers 4 levels deep
+    keys = list(tree)
+    nested = {'lvl1': {'lvl2': [dict((k, tree[k]) for k in keys[:4]), ({'lvl4': [tree[k] for k in keys[4:]]}, None)], 'clock': 3.0}, 'extra': ()}
+    outn, ok = _apply(ctx, clause, f, nested)
+    if ok:
+        ctx.exact('nested tree structure kept', str(jax.tree_util.tree_structure(outn)), str(jax.tree_util.tree_structure(nested)))
+        flat_ref = [out[k] for k in keys[:4]] + [3.0] + [out[k] for k in keys[4:]]
+        got = jax.tree_util.tree_leaves(outn); want = jax.tree_util.tree_leaves({'lvl1': {'lvl2': [dict((k, out[k]) for k in keys[:4]), ({'lvl4': [out[k] for k in keys[4:]]}, None)], 'clock': 3.0}, 'extra': ()})
+        ctx.oracle('leaves of a deeply nested pytree are filtered exactly like the same leaves in a flat one',
+                   len(got) == len(want) and all(np.shape(g_) == np.shape(w_) and np.array_equal(np.asarray(g_), np.asarray(w_)) for g_, w_ in zip(got, want)),
+                   {'leaves': len(got)})
     z = np.asarray(out['zeros'])
     ctx.oracle('an identically zero spectrum stays identically zero', bool(np.all(z == 0.0)))
     oh = np.asarray(out['onehot_top']); mask = onehot != 0
@@ -904,6 +948,91 @@ def r_array_order(ctx, a):
     ctx.oracle('clock leaf untouched', out['t'] == 0.5)
 
 
+def _tree_close(ctx, clause, got, want, tol_rel=1e-13):
+    jax, jnp, filtering, sh, ti = J()
+    g_ = jax.tree_util.tree_leaves(got); w_ = jax.tree_util.tree_leaves(want)
+    if len(g_) != len(w_):
+        return ctx.oracle(clause, False, {'leaves': [len(g_), len(w_)]})
+    ok = True
+    for x, y in zip(g_, w_):
+        y = np.asarray(y, dtype=np.float64)
+        ok = ctx.oracle_close(clause, np.asarray(x, dtype=np.float64), y, scale=float(np.abs(y).max()) + 1e-300 if y.size else 1.0, tol_rel=tol_rel) and ok
+    return ok
+
+
+def r_transforms(ctx, a):
+    """Every filter under jit (construction inside and outside), eval_shape, vmap over a leading axis, jvp and vjp:
+    the filters are linear and diagonal, so jvp = filter(tangent), vjp = filter(cotangent) (self-adjoint), all finite.
+    References are numpy broadcasts of the model's factor table."""
+    jax, jnp, filtering, sh, ti = J()
+    g = a['grid']; grid = grid_of(g); lw = lw_of(ctx, g, grid); L = len(lw); ms = tuple(expected_layout(g)[0]); r = float(g['radius'])
+    rng = np.random.default_rng(a['dseed']); K = 2; B = 3; odd = 3 if L != 3 else 4
+    def mk_tree(lead=()):
+        return {'x': _data(rng, lead + (K,) + ms), 'aux': (_data(rng, lead + (L,)), _data(rng, lead + (odd,))), 't': _data(rng, lead)}
+    x, v, w = mk_tree(), mk_tree(), mk_tree()
+    xb = mk_tree((B,))
+    J_ = lambda t: jax.tree_util.tree_map(jnp.asarray, t)
+    for k, (mk, cmd, p, pars) in _factories(grid, r).items():
+        exps = ctx.model.call(cmd, [L, p] + lw, [pars]); sc = [fexp(q) for q in exps]
+        ref = lambda t: jax.tree_util.tree_map(lambda leaf: _np_rescale(leaf, sc, L), t)
+        f = mk()
+        _tree_close(ctx, 'filter = numpy broadcast of the factor table (' + k + ')', f(x), ref(x))
+        _tree_close(ctx, 'jit(filter) = filter (' + k + ')', jax.jit(f)(x), ref(x))
+        _tree_close(ctx, 'filter constructed inside jit = filter (' + k + ')', jax.jit(lambda t: mk()(t))(J_(x)), ref(x))
+        es = jax.eval_shape(f, J_(x))
+        ctx.oracle('eval_shape(filter) keeps shapes and dtypes (' + k + ')',
+                   [(tuple(l_.shape), str(l_.dtype)) for l_ in jax.tree_util.tree_leaves(es)] ==
+                   [(np.shape(l_), 'float64') for l_ in jax.tree_util.tree_leaves(x)])
+        yb = jax.vmap(f)(J_(xb))
+        wantb = {'x': xb['x'] * np.asarray(sc), 'aux': (xb['aux'][0] * np.asarray(sc), xb['aux'][1]), 't': xb['t']}
+        _tree_close(ctx, 'vmap(filter) over a leading axis = filter on every slice (' + k + ')', yb, wantb)
+        prim, tang = jax.jvp(f, (J_(x),), (J_(v),))
+        _tree_close(ctx, 'jvp of a filter: primal = filter(x) (' + k + ')', prim, ref(x))
+        _tree_close(ctx, 'jvp of a filter = filter applied to the tangent (' + k + ')', tang, ref(v))
+        out, pull = jax.vjp(f, J_(x))
+        (ct,) = pull(J_(w))
+        fin = all(bool(np.all(np.isfinite(np.asarray(l_)))) for l_ in jax.tree_util.tree_leaves(ct))
+        ctx.oracle('vjp of a filter is finite (' + k + ')', fin)
+        _tree_close(ctx, 'vjp of a filter = filter applied to the cotangent (diagonal, self-adjoint) (' + k + ')', ct, ref(w))
+    # Robert-Asselin under jit / vmap / jvp
+    rr = 0.05; ra = ti.robert_asselin_leapfrog_filter(rr)
+    mix = lambda p_, c_, f_: jax.tree_util.tree_map(lambda a_, b_, c__: (1 - 2 * rr) * np.asarray(b_) + rr * (np.asarray(a_) + np.asarray(c__)), p_, c_, f_)
+    got = jax.jit(ra)((J_(x), J_(v)), (J_(x), J_(w)))
+    _tree_close(ctx, 'jit(Robert-Asselin) = formula', got, (mix(x, v, w), w))
+    xb2, xb3 = mk_tree((B,)), mk_tree((B,))
+    got = jax.vmap(ra)((J_(xb), J_(xb2)), (J_(xb), J_(xb3)))
+    _tree_close(ctx, 'vmap(Robert-Asselin) = formula on every slice', got, (mix(xb, xb2, xb3), xb3))
+    ctx.count('transforms impl=' + g['impl'])
+
+
+def r_chain(ctx, a):
+    """Step filters in a chain (time_integration.step_with_filters) in both orders, with u unrelated to u_next."""
+    jax, jnp, filtering, sh, ti = J()
+    g = a['grid']; grid = grid_of(g); lw = lw_of(ctx, g, grid); L = len(lw); ms = tuple(expected_layout(g)[0])
+    rng = np.random.default_rng(a['dseed']); rr = a['r']
+    exps = ctx.model.call(4, [L, a['p']] + lw, [[a['dt'], a['tau'], a['c']]]); sc = np.asarray([fexp(q) for q in exps])
+    T = lambda: {'x': _data(rng, (2,) + ms), 'spec1d': _data(rng, (L,)), 't': float(rng.integers(1, 9)) / 4}
+    prev, cur, curx, fut = T(), T(), T(), T()
+    F = lambda t: {'x': t['x'] * sc, 'spec1d': t['spec1d'] * sc, 't': t['t']}
+    mix = lambda p_, c_, f_: {k: (1 - 2 * rr) * c_[k] + rr * (p_[k] + f_[k]) for k in c_}
+    ra = ti.robert_asselin_leapfrog_filter(rr)
+    ex = ti.exponential_leapfrog_step_filter(grid, a['dt'], a['tau'], a['p'], a['c'])
+    step_fn = lambda u: (curx, fut)
+    out = ti.step_with_filters(step_fn, [ra, ex])((prev, cur))
+    _tree_close(ctx, 'Robert-Asselin then exponential leapfrog filter: (RA(current), F(future))', out, (mix(prev, cur, fut), F(fut)))
+    out = ti.step_with_filters(step_fn, [ex, ra])((prev, cur))
+    _tree_close(ctx, 'exponential leapfrog filter then Robert-Asselin: (RA with F(future), F(future))', out, (mix(prev, cur, F(fut)), F(fut)))
+    out = ti.step_with_filters(step_fn, [ex, ex])((prev, cur))
+    _tree_close(ctx, 'leapfrog step filter twice: current slot of u_next untouched, future filtered twice', out, (curx, F(F(fut))))
+    # u unrelated to u_next (other structure, other shapes, None)
+    for u in (None, {'unrelated': np.ones(3)}, ('a string', 7), (fut, prev)):
+        o1 = ex(u, (curx, fut))
+        _tree_close(ctx, 'leapfrog step filter ignores u and filters only the newest level of u_next', o1, (curx, F(fut)))
+        o2 = ti.exponential_step_filter(grid, a['dt'], a['tau'], a['p'], a['c'])(u, fut)
+        _tree_close(ctx, 'Runge-Kutta step filter ignores u and filters u_next', o2, F(fut))
+    ctx.count('chain')
+
+
 def r_ra_int(ctx, a):
     jax, jnp, filtering, sh, ti = J()
     r = a['r']; st = a['stride']
@@ -936,4 +1065,4 @@ def r_ra_int(ctx, a):
 RUNNERS = {'shapes': r_shapes, 'expfilter': r_expfilter, 'hdfilter': r_hdfilter, 'expstep': r_expstep, 'hdstep': r_hdstep,
            'tree': r_tree, 'incompatible_leaf': r_incompatible, 'array_strength': r_array_strength,
            'robert_asselin': r_robert_asselin, 'ra_int': r_ra_int,
-           'purity': r_purity, 'defaults': r_defaults, 'make_filter': r_make_filter, 'array_order': r_array_order}
+           'purity': r_purity, 'transforms': r_transforms, 'chain': r_chain, 'defaults': r_defaults, 'make_filter': r_make_filter, 'array_order': r_array_order}
